@@ -96,6 +96,29 @@ theorem isTemplateOf_var (env : CV.Template.Env) (n : Str) (t : String) (hn : CV
 theorem variable_document_keys {R : TPath → String → String → Prop} (p : TPath) (kvs' kvs : List (String × Val))
     (h : LeafRelKVs R p kvs' kvs) : kvs.map Prod.fst = kvs'.map Prod.fst := leafRel_keys kvs' kvs p h
 
+/-! ## errors at document level: "a value that cannot be converted is an error naming the attribute path" -/
+
+/-- nothing substituted: the only possible error is the cast error of one string leaf, naming that leaf's path -/
+theorem castTree_error_names_path (c : Cfg) (p : TPath) (v : Val) (e : Err) (h : castTree c p v = .err e) :
+    ∃ q s, (q, s) ∈ leaves p v ∧ castOnly c q s = .err e ∧ e = .cast (pathString q) :=
+  castTree_err c p v e h
+
+/-- the variable-bearing document fails exactly when the literal one has a string that its cast row rejects, and the error
+    names the path of that attribute *in the literal document* (never a substitution error: the templates evaluate) -/
+theorem variable_document_error_names_path (c : Cfg) (p : TPath) (v' v : Val) (e : Err)
+    (h : LeafRel (fun _ s t => IsTemplateOf c.env s t) p v' v) (he : interp c p v' = .err e) :
+    ∃ q t, (q, t) ∈ leaves p v ∧ castOnly c q t = .err e ∧ e = .cast (pathString q) := by
+  rw [variable_document_is_literal c p v' v h] at he
+  exact castTree_err c p v e he
+
+/-- the same for the escaped document: the only way it can fail is a `$`-bearing (or otherwise unconvertible) text on a
+    cast row, reported at its path -/
+theorem escaped_document_error_names_path (c : Cfg) (p : TPath) (v : Val) (e : Err)
+    (he : interp c p (escapeAll v) = .err e) :
+    ∃ q t, (q, t) ∈ leaves p v ∧ castOnly c q t = .err e ∧ e = .cast (pathString q) := by
+  rw [escape_document_typed] at he
+  exact castTree_err c p v e he
+
 /-! ## the loader step: interpolation on / off (loader/loader.go `loadYamlFile`, pinned by `Props/C08Source.lean`) -/
 
 /-- with `SkipInterpolation` the document is handed on as it is -/
